@@ -32,6 +32,9 @@ func init() {
 		},
 		Prepare: func(c *core.Ctx) error {
 			for _, spec := range diffSpecs {
+				if spec.Runner != nil {
+					continue
+				}
 				if _, _, _, err := spec.corpus(c18Ctx(c)); err != nil {
 					return err
 				}
@@ -127,7 +130,7 @@ func c18Run(c *core.Ctx) {
 	if c.NShards%2 == 1 && c.Shard == c.NShards-1 {
 		return // odd worker out
 	}
-	c.Rule("every program of the quick corpora of the registered twin-execution checks, evaluated under all 64 combinations of {Debugger, CollectDeclarations, CollectStatements, TrapPanic, PanicStackTrace, KeepUntyped} in each generics mode {v2 CTI, none} (worker processes, the mode is process-global) = 128 configurations; " +
+	c.Rule("every program (quick tier: every stride-th program, stride reported as corpus_stride) of the quick corpora of the registered twin-execution checks, evaluated under all 64 combinations of {Debugger, CollectDeclarations, CollectStatements, TrapPanic, PanicStackTrace, KeepUntyped} in each generics mode {v2 CTI, none} (worker processes, the mode is process-global) = 128 configurations; " +
 		"paths: Eval for all configurations, EvalReader for all configurations in the thorough tier and for the 16 Trap/StackTrace/Debugger/KeepUntyped combinations in the quick tier; oracle = configuration 0 of the same generics mode, and the two modes' configuration-0 results must be equal (cross-process, by hash); " +
 		"plus a fixed list of untyped constant expressions whose KeepUntyped result must convert exactly to the typed baseline; non-trivial = distinct (program, configuration) pairs whose baseline trace has at least two events")
 	cc := c18Ctx(c)
@@ -137,12 +140,35 @@ func c18Run(c *core.Ctx) {
 	readIr := make([]*twin.Interp, nconf)
 	hashes := map[string]uint64{}
 	n := 0
+	// quick tier: a fixed stride through every corpus (every stride-th program) keeps 128 configurations affordable;
+	// the thorough tier takes every program
+	total := 0
+	corpora := map[string][]oracle.Prog{}
 	for _, spec := range diffSpecs {
+		if spec.Runner != nil {
+			continue // corpora with their own site-by-site runner (C09) are not whole programs
+		}
 		valid, _, _, err := spec.corpus(cc)
 		if err != nil {
 			panic(err)
 		}
+		corpora[spec.ID] = valid
+		total += len(valid)
+	}
+	stride := 1
+	if c.Quick() && total > 2500 {
+		stride = (total + 2499) / 2500
+	}
+	c.Set("corpus_programs_total", total)
+	c.Set("corpus_stride", stride)
+	k := 0
+	for _, spec := range diffSpecs {
+		valid := corpora[spec.ID]
 		for i := range valid {
+			k++
+			if k%stride != 0 {
+				continue
+			}
 			n++
 			if n%ngroups != group {
 				continue
@@ -185,14 +211,16 @@ func c18Run(c *core.Ctx) {
 				}
 				outR := c18RunProg(readIr[k], p, "EvalReader")
 				c.Eval(1)
+				// the REPL path reports an escaped panic as text (printed by the trap, or as the returned error): the text of a
+				// user panic value is formatted differently by the two reporters, so user values are compared by presence only
 				if k == 0 {
 					baseR = outR
-				} else if outR != baseR {
+				} else if c18Norm(outR) != c18Norm(baseR) {
 					c18Confirm(c, p, k, mode, "EvalReader", baseR, outR)
 				}
 			}
 			// both paths must agree with each other in configuration 0
-			if c18Norm(baseR) != c18Norm(base0) {
+			if base0 != "COMPILE-ERROR" && c18Norm(baseR) != c18Norm(base0) {
 				c18Confirm(c, p, 0, mode, "EvalReader-vs-Eval", base0, baseR)
 			}
 		}
@@ -229,7 +257,7 @@ func c18Confirm(c *core.Ctx, p *oracle.Prog, k int, mode, path, want, got string
 	g2 := c18RunProg(c18NewInterp(k), p, rp)
 	_, names := c18Options(k)
 	same := w2 == g2
-	if path == "EvalReader-vs-Eval" {
+	if path != "Eval" {
 		same = c18Norm(w2) == c18Norm(g2)
 	}
 	if same {
